@@ -71,8 +71,7 @@ REQS = {
     'two': ('[seg(rp, rl, False), seg(rq, rm, False)]', ['rp', 'rl', 'rq', 'rm'], ['1 <= rp <= 0xFFFF and 0 <= rl <= 255 and 1 <= rq <= 0xFFFF and 0 <= rm <= 255']),
 }
 QUICK = {('none', 'one', 'write'), ('simple', 'absent', 'read'), ('simple', 'empty', 'write'), ('simple', 'one', 'write'), ('one', 'one', 'write'),
-         ('one', 'absent', 'read'), ('one', 'two', 'read'), ('two', 'two', 'write'), ('two', 'one', 'gaa'), ('oneadr', 'oneadr', 'write'),
-         ('one', 'oneadr', 'read'), ('none', 'two', 'gaa'), ('oneadr', 'one', 'write'), ('two', 'empty', 'read')}
+         ('one', 'absent', 'read'), ('one', 'two', 'gaa'), ('oneadr', 'oneadr', 'write'), ('one', 'oneadr', 'read'), ('two', 'two', 'write')}
 for cn, (cexpr, cparams, cpre) in CONFIGS.items():
     for rn, (rexpr, rparams, rpre) in REQS.items():
         for service in ('read', 'write', 'gaa'):
